@@ -1,6 +1,7 @@
 import Martian.Semaphore
 import Martian.SemaphoreSys
 import Martian.SemaphoreQueue
+import Martian.SemaphoreRefresh
 import Driver.Util
 
 /-! Line-protocol handler for property C12.
@@ -22,6 +23,9 @@ import Driver.Util
   `q r d f n`; events `,`-separated: `I<t>` queryQueue called, `A<t>:<hex of the command's stdout>` /
   `A<t>:!` (command failed) the query finishes, `R<t>` refreshState, `P<jobid>:<st>` the job writes files.
   Reply per event, `;`-separated: `<last|->|<ids in flight +-separated | ->|<st>/<since|->,…`.
+* `C12.refresh  <mem|vmem|cores|procs>  <max,cur,reserved>  <waiting amounts ,-separated | .>  <actualFree,rss,vmem,procs,idleCenti,rlimCur,userProcs>`:
+  what `refreshResources` does to that semaphore (Martian/SemaphoreRefresh.lean; the vmem semaphore's limit is its max).
+  Reply as one entry of `C12.sem`: `cur:reserved:qlen:events` (waiters get the ids 1, 2, …).
 -/
 namespace Driver.C12
 open Martian.Semaphore
@@ -175,8 +179,28 @@ def showQ (s : Q) : String :=
 
 end QQ
 
+def withIds : Nat → List Int → List Waiter
+  | _, [] => []
+  | k, a :: as => (k, a) :: withIds (k + 1) as
+
 def handle (op : String) (args : List String) : Option String :=
   match op, args with
+  | "refresh", [kind, st, ws, obs] => do
+    let st ← ints? st
+    let ws ← (if ws == "." then some [] else ints? ws)
+    let ob ← ints? obs
+    match st, ob with
+    | [m, c, r], [af, rss, vm, pr, idle, rc, up] =>
+      let s : Sem := ⟨m, c, r, withIds 1 ws⟩
+      let o : Martian.SemaphoreRefresh.Obs := ⟨af, rss, vm, pr, idle, rc, up⟩
+      let sop ← (match kind with
+        | "mem" => some (Martian.SemaphoreRefresh.refreshMemOp o)
+        | "vmem" => some (Martian.SemaphoreRefresh.refreshVmemOp m o)
+        | "cores" => some (Martian.SemaphoreRefresh.refreshCoresOp o)
+        | "procs" => some (Martian.SemaphoreRefresh.refreshProcsOp o)
+        | _ => none)
+      pure (showStep (step s sop))
+    | _, _ => none
   | "queue", [grace, limit, jobs, evs] => do
     let g ← nat? grace
     let l ← nat? limit
